@@ -119,6 +119,12 @@ func Quote(decoded string) string {
 // ---------------------------------------------------------------------------------------
 // number tokens
 
+// AvoidZeroExp makes NumberTok skip the `0e1` spelling (a recorded known finding, judged in C10).
+var AvoidZeroExp = true
+
+// Avoided is called with a reason whenever a generator steers around a recorded finding.
+var Avoided func(reason string)
+
 // NumberTok draws an RFC 8259 numeral. exp=false forbids exponents (schema examples).
 func NumberTok(t *rapid.T, exp bool, label string) string {
 	var b strings.Builder
@@ -133,11 +139,21 @@ func NumberTok(t *rapid.T, exp bool, label string) string {
 	default:
 		b.WriteString(digits(t, 1, 4, true, label+"Int"))
 	}
+	hasFrac := false
 	if rapid.IntRange(0, 2).Draw(t, label+"Frac") == 0 {
+		hasFrac = true
 		b.WriteByte('.')
 		b.WriteString(digits(t, 1, 6, false, label+"FracD"))
 	}
 	if exp && rapid.IntRange(0, 3).Draw(t, label+"Exp") == 0 {
+		if z := b.String(); AvoidZeroExp && !hasFrac && (z == "0" || z == "-0") {
+			// known finding C10-zero-mantissa-exponent: `0e1` is not recognised as a number at all;
+			// generators other than C10's avoid the spelling by construction and count it
+			if Avoided != nil {
+				Avoided("zero-mantissa-with-exponent")
+			}
+			return z
+		}
 		b.WriteString(rapid.SampledFrom([]string{"e", "E"}).Draw(t, label+"E"))
 		b.WriteString(rapid.SampledFrom([]string{"", "+", "-"}).Draw(t, label+"ESign"))
 		b.WriteString(digits(t, 1, 3, false, label+"ExpD"))
